@@ -74,7 +74,7 @@ def gen_slice_case(rng, k, p_strand=0.2, p_insert=0.75, p_diff=True, measures=("
 
 def replayable(case):
     return {k: case[k] for k in ("k", "response", "transforms", "strand", "kinds", "valid_counts",
-                                 "weighted", "dominant", "empty_wave") if k in case}
+                                 "weighted", "dominant", "empty_wave", "filter_fraction") if k in case}
 
 
 def read(part, names):
